@@ -8,13 +8,26 @@ from .common import EVIDENCE, OUT_ROOT, VERIF, CheckError, Timer, log
 
 
 def load_known():
-    p = os.path.join(VERIF, "known_findings.jsonl")
+    """known_findings.txt -> list of dicts {status, property, id, commit, what}"""
+    import re
+    p = os.path.join(VERIF, "known_findings.txt")
     out = []
     if os.path.exists(p):
         for line in open(p):
             line = line.strip()
-            if line and not line.startswith("#"):
-                out.append(json.loads(line))
+            m = re.match(r"(known|fixed): property=(\S+) (.*)$", line)
+            if not m:
+                continue
+            rec = {"status": m.group(1), "property": m.group(2), "what": m.group(3), "id": "", "commit": ""}
+            if rec["status"] == "known":
+                mm = re.match(r"id=(\S+) (.*)$", rec["what"])
+                if mm:
+                    rec["id"], rec["what"] = mm.group(1), mm.group(2)
+            else:
+                mm = re.match(r"(\S+) (.*)$", rec["what"])
+                if mm:
+                    rec["commit"], rec["what"] = mm.group(1), mm.group(2)
+            out.append(rec)
     return out
 
 
